@@ -3,7 +3,7 @@
    (tied to the Rust serializers by the correspondence runs of C01 and of this check).
    Spec: Cddl/ConwayCddl.v (transcription of the Conway CDDL) judged by the validator of Cddl/Validator.v over the
    independent CBOR reader of Cbor/Item.v. *)
-From CSL Require Import Num.Value Cddl.NoZeroAssets Builder.Totals Builder.Change Cddl.ChangeNoZero Cddl.NormPos.
+From CSL Require Import Num.Value Cddl.NoZeroAssets Builder.Totals Builder.Change Builder.Scenario Cddl.ChangeNoZero Cddl.NormPos Cddl.Histories.
 From CSL Require Import Base.Prelude Cbor.Head Cbor.Item Cbor.ItemProofs Codec.Schema Codec.SchemaProofs
   Ledger.Schemas Ledger.SchemasProofs
   Cddl.Rules Cddl.Validator Cddl.ValidatorProofs Cddl.ConwayCddl Cddl.ToItem Cddl.ToItemProofs Cddl.CanonProofs
@@ -190,6 +190,39 @@ Theorem C03_stored_amounts_pos : forall v,
   value_pos v = negb (Num.ValueNorm.value_has_empty_entries v).
 Proof. exact stored_amounts_pos. Qed.
 Print Assumptions C03_stored_amounts_pos.
+
+(* (5'') the builder clause over HISTORIES, premise-free on the inputs: on C05's builder model (Builder/Scenario.v: input,
+   output, certificates, withdrawals, proposals, mint set/add, donation, treasury, set_fee, set_min_fee, add_change,
+   add_inputs_from_and_change, build_tx; sizes and fees from the recorded-answer oracle, whatever it answers), starting from a
+   NEW builder, every transaction build_tx releases has outputs free of zero quantities and empty policy bundles - provided
+   change is only computed while no mint line has the stored sum 0 ([history_ok]: at each add_change /
+   add_inputs_from_and_change, [mint_nonzero], which is exactly the test MintBuilder::build applies before a transaction is
+   released).  That is all the mint side needs: a zero line is counted as a minted asset of quantity 0 by
+   Mint::as_positive_multiasset and would flow into the change. *)
+Theorem C03_builder_histories_no_zero_assets : forall cfg utxos l,
+  history_ok utxos l (new_state cfg) = true ->
+  forall b, snd (run_ops utxos l (new_state cfg)) = Some b -> body_pos b.
+Proof. exact builder_histories_no_zero_assets. Qed.
+Print Assumptions C03_builder_histories_no_zero_assets.
+
+(* the invariant behind it, for every reachable state *)
+Theorem C03_builder_reachable_states : forall utxos l s, J s -> history_ok utxos l s = true ->
+  J (snd (fst (run_ops utxos l s))).
+Proof. intros utxos l s Hs Hh. exact (proj1 (run_ops_J utxos l s Hs Hh)). Qed.
+Print Assumptions C03_builder_reachable_states.
+
+(* the premises are satisfiable on a history that releases a transaction: an input given WITH a zero-quantity asset (stored
+   without it), an output, a fixed fee, build_tx *)
+Example C03_history_example :
+  let p := repeat 1 28 in
+  let utxos := [(1, mkValue 10 (Some [(p, [([65], 0)])]))] in
+  let e := mkTape [] None false in
+  let l := [(OpInput 1, e); (OpOutput (mkOutput 7 (value_new 4) 0), mkTape [(site_S, Some 0); (site_A, Some 0)] None false);
+            (OpSetFee 6, e); (OpBuild, mkTape [(site_F, Some 0); (site_T, Some 0)] None false)] in
+  history_ok utxos l (new_state (mkConfig 0 0 false false)) = true /\
+  exists b, snd (run_ops utxos l (new_state (mkConfig 0 0 false false))) = Some b /\ length (b_outputs b) = 1%nat /\
+            b_inputs b = [(1, mkValue 10 (Some []))].
+Proof. cbv zeta. split; [vm_compute; reflexivity|]. eexists. vm_compute. repeat split. Qed.
 
 (* ---- non-vacuity ---- *)
 Example C03_tables_nonempty :
